@@ -40,6 +40,12 @@ pub enum Fault {
     SymlinkLoop,
     /// the path is a symbolic link to an existing, longer regular file (must end up holding exactly the rendering)
     SymlinkToLonger,
+    /// the path already holds a file of exactly the same length that differs from the new output only in its last
+    /// bytes / only in its first bytes (an "already up to date?" shortcut must compare everything)
+    ExistingSameLengthTail,
+    ExistingSameLengthHead,
+    /// the path already holds exactly the new output followed by extra bytes
+    ExistingPrefixEqual,
     /// RLIMIT_FSIZE = permille/1000 of the full output length (in a child process)
     ShortWrite(u32),
 }
@@ -91,6 +97,9 @@ pub fn from_json(v: &Value) -> Option<Case> {
             "DanglingSymlink" => Fault::DanglingSymlink,
             "SymlinkLoop" => Fault::SymlinkLoop,
             "SymlinkToLonger" => Fault::SymlinkToLonger,
+            "ExistingSameLengthTail" => Fault::ExistingSameLengthTail,
+            "ExistingSameLengthHead" => Fault::ExistingSameLengthHead,
+            "ExistingPrefixEqual" => Fault::ExistingPrefixEqual,
             _ => return None,
         }
     };
@@ -282,6 +291,27 @@ pub fn check(c: &Case, obs: &mut Obs) -> Result<(), Fail> {
             let _ = std::os::unix::fs::symlink(format!("{}/gone-{}/target.{}", dir, uniq, ext), &l);
             (l, true)
         }
+        Fault::ExistingSameLengthTail | Fault::ExistingSameLengthHead | Fault::ExistingPrefixEqual => {
+            let mut old = want.clone();
+            match c.fault {
+                Fault::ExistingSameLengthTail => {
+                    let k = old.len().min(1 + (c.build.hash() % 900) as usize);
+                    let n0 = old.len();
+                    for b in old[n0 - k..].iter_mut() {
+                        *b = b.wrapping_add(1);
+                    }
+                }
+                Fault::ExistingSameLengthHead => {
+                    let k = old.len().min(1 + (c.build.hash() % 64) as usize);
+                    for b in old[..k].iter_mut() {
+                        *b = b.wrapping_add(1);
+                    }
+                }
+                _ => old.extend_from_slice(b"\n"),
+            }
+            std::fs::write(&good, &old).expect("scratch write");
+            (good.clone(), false)
+        }
         Fault::SymlinkToLonger => {
             let mut junk = want.clone();
             junk.extend_from_slice(&vec![b'#'; 9000]);
@@ -460,6 +490,9 @@ fn fault_strategy() -> BoxedStrategy<Fault> {
         1 => Just(Fault::DanglingSymlink),
         1 => Just(Fault::SymlinkLoop),
         1 => Just(Fault::SymlinkToLonger),
+        1 => Just(Fault::ExistingSameLengthTail),
+        1 => Just(Fault::ExistingSameLengthHead),
+        1 => Just(Fault::ExistingPrefixEqual),
         6 => prop_oneof![1 => Just(0u32), 1 => Just(999u32), 4 => 0u32..1000].prop_map(Fault::ShortWrite),
     ]
     .boxed()
@@ -482,7 +515,7 @@ pub fn run(e: &'static Engine) {
     crate::engine::run_regress(e, &|c, o| replay(e, c, o));
     let all_faults = vec![
         Fault::None, Fault::ExistingLonger, Fault::MissingDir, Fault::IsDir, Fault::ParentIsFile, Fault::NameTooLong, Fault::EmbeddedNul,
-        Fault::EmptyPath, Fault::ReadOnlyProc, Fault::ReadOnlySys, Fault::DevFull, Fault::ReadOnlyDir, Fault::ReadOnlyFile, Fault::DanglingSymlink, Fault::SymlinkLoop, Fault::SymlinkToLonger, Fault::ShortWrite(0), Fault::ShortWrite(1), Fault::ShortWrite(500), Fault::ShortWrite(999),
+        Fault::EmptyPath, Fault::ReadOnlyProc, Fault::ReadOnlySys, Fault::DevFull, Fault::ReadOnlyDir, Fault::ReadOnlyFile, Fault::DanglingSymlink, Fault::SymlinkLoop, Fault::SymlinkToLonger, Fault::ExistingSameLengthTail, Fault::ExistingSameLengthHead, Fault::ExistingPrefixEqual, Fault::ShortWrite(0), Fault::ShortWrite(1), Fault::ShortWrite(500), Fault::ShortWrite(999),
     ];
     let mut jobs: Vec<Job> = Vec::new();
     for (wi, writer) in [Writer::Svg, Writer::Png].into_iter().enumerate() {
